@@ -447,7 +447,8 @@ class Inputs:
     def validate_week(year: int, week: int) -> bool:
         """Validate week."""
 
-        max_week = datetime.strptime(f"{12}-{31}-{year}", "%m-%d-%Y").isocalendar()[1]
+        # The Gregorian calendar repeats every 400 years, so use an equivalent year that `datetime` supports.
+        max_week = datetime(2000 + year % 400, 12, 31).isocalendar()[1]
         if max_week == 1:
             max_week = 53
         return 1 <= week <= max_week
